@@ -166,7 +166,7 @@ def text_of(lines):
     return ''.join('%s%s %s\n' % (m + ' ' if m else '', p, pub_line(k)) for m, p, k in lines)
 
 
-def connect_once(lines, port, cred, seed=0, kh=None, host=HOST, addr=ADDR, cb=None):
+def connect_once(lines, port, cred, seed=0, kh=None, host=HOST, addr=ADDR, cb=None, config=None):
     """returns observation dict"""
     loop = P.fresh(seed)
     P.install_wire_labels()
@@ -188,6 +188,10 @@ def connect_once(lines, port, cred, seed=0, kh=None, host=HOST, addr=ADDR, cb=No
             if isinstance(cert, tuple):
                 return connect_lying(lines, port, 'tampered-cert', cred, loop)
             hk = [(K(cred[1]), cert)]
+        if config is not None:
+            # the trust data is whatever the configuration file names: no known_hosts argument at all
+            extra.update(config=[config])
+            text = ()
         pair = P.Pair(loop, sopts=dict(server_host_keys=hk),
                       copts=dict(known_hosts=text, host=host, port=port, **extra),
                       caddr=('10.0.0.9', 40001), saddr=(addr, port))
@@ -428,6 +432,79 @@ def forms_worker(job):
     return acc
 
 
+# ------------------------------------------------------------------ trust data named by the client configuration file
+CFG_SCOPES = ('Host h.example', 'Host *', 'Host other.example', 'Match host h.example')
+CFG_OPTS = ('UserKnownHostsFile', 'GlobalKnownHostsFile')
+CFG_VALS = ('good', 'bad', 'none')
+
+
+def cfgtrust_programs():
+    blocks = [(sc, o, v) for sc in CFG_SCOPES for o in CFG_OPTS for v in CFG_VALS]
+    progs = []
+    for final in CFG_VALS:
+        last = ('Host *', 'UserKnownHostsFile', final)
+        progs.append((last,))
+        for b1 in blocks:
+            progs.append((b1, last))
+            for b2 in blocks:
+                progs.append((b1, b2, last))
+    return progs
+
+
+def cfgtrust_worker(job):
+    """no known_hosts argument: the files come from UserKnownHostsFile / GlobalKnownHostsFile of an OpenSSH
+    client configuration of 1-3 blocks (specific Host, Host *, another host, Match host) with values {a file
+    listing the server's key, a file listing another key, none}.  Each option takes the first value obtained from
+    a matching block; the connection is usable iff one of the effective files lists the key the server proved.
+    (An effective "UserKnownHostsFile none" means "no host key checking" in asyncssh: counted, not judged.)"""
+    import tempfile
+    acc = core.Acc()
+    tmp = tempfile.mkdtemp(prefix='asyncssh-verif-c04cfg-', dir='/dev/shm')
+    try:
+        files = {'good': os.path.join(tmp, 'kh_good'), 'bad': os.path.join(tmp, 'kh_bad')}
+        with open(files['good'], 'w') as f:
+            f.write(text_of((('', HOST, 'k1'),)))
+        with open(files['bad'], 'w') as f:
+            f.write(text_of((('', HOST, 'k2'),)))
+        cfg = os.path.join(tmp, 'config')
+        for prog in job:
+            with open(cfg, 'w') as f:
+                for sc, o, v in prog:
+                    f.write('%s\n  %s %s\n' % (sc, o, files.get(v, 'none')))
+            eff = {}
+            for sc, o, v in prog:
+                if sc != 'Host other.example' and o not in eff:
+                    eff[o] = v
+            effective = [v for v in (eff.get('UserKnownHostsFile'), eff.get('GlobalKnownHostsFile')) if v in ('good', 'bad')]
+            rep = {'kind': 'cfgtrust', 'prog': [list(b) for b in prog]}
+            try:
+                obs = connect_once((), 22, ('key', 'k1'), config=cfg)
+            except Exception as exc:        # pylint: disable=broad-except
+                acc.violation('trust:harness:cfgtrust', repr(exc)[:200], rep)
+                continue
+            acc.add(core.digest(('cfgtrust', prog, obs['connected'], obs['exc'])), transitions=1,
+                    sample={'config': open(cfg).read().replace(tmp, ''), 'connected': obs['connected'], 'error': obs['exc']}
+                    if len(prog) == 2 and prog[0][2] == 'bad' and prog[1][2] == 'none' and prog[0][0] == 'Host h.example' and prog[0][1] == 'UserKnownHostsFile' else None)
+            if not effective or eff.get('UserKnownHostsFile') == 'none':
+                # "UserKnownHostsFile none" switches host key checking off in asyncssh whatever the global file
+                # says (docs/changes.rst, release notes): the library's documented choice, not judged here
+                acc.count('cfgtrust:checking-disabled-by-configuration')
+                continue
+            want = 'good' in effective
+            desc = '; '.join('%s: %s %s' % b for b in prog)
+            if obs['connected'] and not want:
+                acc.violation('trust:untrusted-server-accepted:cfgtrust', 'configuration [%s] names only files that do not list the server key, yet the connection was established' % desc, rep)
+            if not want and obs['userauth_sent']:
+                acc.violation('trust:credentials-sent-to-untrusted-server:cfgtrust', 'configuration [%s]' % desc, rep)
+            if want and not obs['connected']:
+                acc.violation('trust:trusted-server-rejected:cfgtrust', 'configuration [%s]: %s' % (desc, obs['exc']), rep)
+            if obs['loop_exc']:
+                acc.violation('trust:loop-exception:cfgtrust', obs['loop_exc'][0], rep)
+    finally:
+        shutil.rmtree(tmp, ignore_errors=True)
+    return acc
+
+
 # ------------------------------------------------------------------ connections tunneled through a jump host
 def tunnel_cases():
     pats = ['target.example', 'jump.example', '@JUMPADDR', '@TARGETADDR', '*', 'jump.example,@JUMPADDR', 'target.example,@TARGETADDR']
@@ -652,6 +729,8 @@ def main(tier, seed):
     ffiles = [((m1, p1, k1), (m2, p2, k2)) for m1 in MARKERS for p1 in (HOST, '*') for k1 in ('k1', 'k2')
               for m2 in MARKERS for p2 in (HOST, '*') for k2 in ('k1', 'k2')]
     acc.merge(core.pmap(forms_worker, [ffiles[i::32] for i in range(32)]))
+    cprogs = cfgtrust_programs()
+    acc.merge(core.pmap(cfgtrust_worker, [cprogs[i::32] for i in range(32)]))
     sp = [HOST, ADDR, '10.0.0.6', 'other.example', '*']
     sfiles = [(('', p1, k1), ('', p2, k2)) for p1 in sp for k1 in ('k1', 'k2') for p2 in sp for k2 in ('k1', 'k2')]
     acc.merge(core.pmap(shared_worker, [sfiles[i::32] for i in range(32)]))
@@ -665,7 +744,7 @@ def main(tier, seed):
             '12 host/user certificates: validity windows at the exact boundaries of the virtual clock, '
             'principal sets, wrong type, other CA, altered body) through a real handshake; independent '
             'predicate decides; lying servers via refpeer; a re-exchange in which the server proves another (unlisted, revoked) key; connections tunneled through a jump host with known_hosts lines for the names and addresses of both hosts; 144 two-line files handed over as one file, lists of files with and without final newlines, object, callable; %d files of 0-2 lines x application callbacks accepting '
-            'unlisted host keys / CA keys / both x 7 credentials' % len(cfiles))
+            'unlisted host keys / CA keys / both x 7 credentials; %d client configurations of 1-3 blocks naming the known_hosts files (UserKnownHostsFile / GlobalKnownHostsFile x 4 block scopes x {file listing the key, file listing another key, none}), no known_hosts argument' % (len(cfiles), len(cprogs)))
     return core.finish(PROP, tier, seed, 'model_checking', acc, t0, rule,
                        {'one_line_files': len(one), 'two_line_files': len(two), 'credentials': len(creds)},
                        assumptions=['bare address / CIDR atoms combined with a non-default port are not judged (undocumented '
@@ -689,7 +768,9 @@ def replay(rep):
         acc = tunnel_worker([(r['case'][0], tuple(tuple(l) for l in r['case'][1]))])
         print(json.dumps(acc.violations[:3], indent=1, default=repr))
         return 1 if acc.violations else 0
-    if r['kind'] == 'forms':
+    if r['kind'] == 'cfgtrust':
+        acc = cfgtrust_worker([tuple(tuple(b) for b in r['prog'])])
+    elif r['kind'] == 'forms':
         acc = forms_worker([tuple(tuple(l) for l in r['lines'])])
         print(json.dumps(acc.violations[:3], indent=1, default=repr))
         return 1 if acc.violations else 0
